@@ -81,7 +81,9 @@ type Msg struct {
 }
 
 func put16(b []byte, v uint16) []byte { return append(b, byte(v>>8), byte(v)) }
-func put32(b []byte, v uint32) []byte { return append(b, byte(v>>24), byte(v>>16), byte(v>>8), byte(v)) }
+func put32(b []byte, v uint32) []byte {
+	return append(b, byte(v>>24), byte(v>>16), byte(v>>8), byte(v))
+}
 
 func encodeFieldSpec(proto string, b []byte, f Field) []byte {
 	if proto == "ipfix" && f.PEN != 0 {
